@@ -63,6 +63,8 @@ CALLEE_SAVED[6] = CALLEE_SAVED[3]
 CFI_SP_IP = {0: ["esp", "eip"], 1: ["rsp", "rip"]}
 SCAN_VALID = {0: ["eip", "esp"], 1: ["rip", "rsp"], 2: ["r15", "r13"]}
 FP_VALID = {0: ["eip", "esp", "ebp"], 1: ["rip", "rsp", "rbp"], 3: ["pc", "sp", "x29"], 6: ["pc", "sp", "x29"]}
+# other spellings of a callee-saved register (ARM r11 = fp, ARM64 x29 = fp): a register is recovered whichever spelling marked it
+ALIASES = {2: {"fp": ["r11"]}, 3: {"fp": ["x29"]}, 6: {"fp": ["x29"]}}
 
 
 def add_expected_validity(arch, exp):
@@ -71,7 +73,8 @@ def add_expected_validity(arch, exp):
     v = None        # None = all valid
     for e in exp:
         if e["trust"] == "cfi":
-            v = set(n for n in CALLEE_SAVED[arch] if v is None or n in v) | set(CFI_SP_IP.get(arch, ["sp", "pc"]))
+            v = set(n for n in CALLEE_SAVED[arch]
+                    if v is None or n in v or any(x in v for x in ALIASES.get(arch, {}).get(n, []))) | set(CFI_SP_IP.get(arch, ["sp", "pc"]))
         elif e["trust"] == "frame_pointer":
             v = set(FP_VALID[arch])
         else:
@@ -329,7 +332,7 @@ class C04(PropBase):
             "precondition mix_wf_layout all from the extracted model; two CFI "
             "modules with different frame sizes, look-alike return addresses in every CFI frame, in frame-pointer frames and in the skipped mips32 "
             "argument words; frame-pointer frames on x86 / amd64 / arm64 in half of the stacks of depth >= 2, placed where the precondition allows: "
-            "while the frame pointer is valid, amd64 without a later scan frame, arm64 before the first CFI frame - see F-C04a); "
+            "while the frame pointer is valid, amd64 without a later scan frame; arm64 mixes frame-pointer and CFI frames like x86 since the repair of F-C04a); "
             "(b) frame-pointer chains, scan-findable and CFI-described stacks for every CPU "
             "(x86, amd64, arm, arm64, arm64_old, mips32, mips64) x OS (other, windows, ios), depth 1..64, 1-3 modules, also at the top of the "
             "address space; (c) stacks mixing CFI and scan per frame; (d) x86 stacks whose functions are described by STACK WIN frame-data / "
@@ -352,8 +355,8 @@ class C04(PropBase):
                 "scanning, for x86, amd64, arm (not iOS), arm64(+old), mips32, mips64 (c04_mix_archs): every stack satisfying the "
                 "boolean precondition mix_wf_layout (scan frames: return address inside the 160/40-word window of its callee after the skipped mips32 "
                 "argument words, acceptable to instruction_seems_valid, padding not, the callee's frame pointer not valid or 0; CFI frames: arbitrary "
-                "words, callee's lookup address inside a module, a valid non-zero frame pointer only where CALLEE_SAVED_REGS names it as the technique "
-                "does (x86, amd64: F-C04a); frame-pointer frames: the callee's frame pointer valid and pointing at the saved word, canonical return "
+                "words, callee's lookup address inside a module (a valid frame pointer is carried on as a callee-saved register on every "
+                "architecture: mix_arch's fp_carried clause, true for arm / arm64 since the repair of F-C04a); frame-pointer frames: the callee's frame pointer valid and pointing at the saved word, canonical return "
                 "address, amd64: saved frame pointer and caller sp readable) is walked to exactly the generated chain — one frame per call with return "
                 "address, instruction = ra - adj, sp, trust cfi/frame_pointer/scan, recovered frame pointer, "
                 "validity set (callee-saved forwarded through CFI frames, {ip, sp, fp} after a frame-pointer frame, {ip, sp} after a scan), general "
@@ -363,11 +366,12 @@ class C04(PropBase):
                 "c04_recovers_chain_reached — for any oracle agreeing with the correct one on the frames the walk reaches; "
                 "c04_recovers_chain_attributed — the recovered chain call by call: lookup address ra - adj, return address, technique label, and the "
                 "module (C08's range map over the module list) and function (C11's model of fill_symbol on any well-formed symbol file) attached to "
-                "the frame cover that lookup address; c04_callee_saved pins the forwarded register sets, c04_fp_forwarded_by_name the state of "
-                "F-C04a in the regenerated constants; c04_recovers_chain_partial_scan / _cfi / _cfi_any / _fp — one technique per walk (scan incl. mips32, "
+                "the frame cover that lookup address; c04_callee_saved pins the forwarded register sets, c04_fwd_alias_pinned the comparison "
+                "each callee_forwarded_regs makes (literal / register_is_valid, regenerated from the sources) and the spellings involved; c04_recovers_chain_partial_scan / _cfi / _cfi_any / _fp — one technique per walk (scan incl. mips32, "
                 "CFI, frame-pointer chains for x86, amd64 with/without the Windows slack scan, arm/iOS, arm64); c04_constants pins the documented "
-                "windows / slack. Known finding F-C04a (arm64/arm: x29/r11 not forwarded through a CFI frame behind a frame-pointer frame; witness in "
-                "corpus/C04, c04_fp_behind_cfi_known_witness) is excluded by the precondition. STACK WIN and real STACK CFI text are covered by the "
+                "windows / slack. F-C04a (arm64/arm: x29/r11 was not forwarded through a CFI frame behind a frame-pointer frame) is fixed in /repo; "
+                "c04_fp_behind_cfi_unfixed_refuted keeps the refutation of the old literal comparison (literal_fwd arm64) next to the recovery of the "
+                "same stack by the code as it is now; the witness stays in corpus/C04 as an ordinary case. STACK WIN and real STACK CFI text are covered by the "
                 "correspondence run only: "
                 "depth 1..64 stacks for every CPU x OS through the real walk_stack and the extracted model (incl. stacks laid out by the Coq builders "
                 "of the scan and mixed theorems), with an independent oracle comparing the frames with the generated chain.",
@@ -381,8 +385,7 @@ class C04(PropBase):
                 "run of C04 observes the module index only. Trusted: Coq kernel, hand-written walker model (correspondence-checked), extraction + glue.",
     }
     assumptions = ["stack memory little-endian; symbol provider = breakpad Symbolizer over string symbol files",
-                   "CFI evaluation abstract in the theorem (correct oracle); concrete rule family `.cfa: SP N + .ra: .cfa w - ^` in the run",
-                   "F-C04a: arm64/arm stacks frame pointer -> CFI -> frame pointer are outside the precondition (known finding, corpus witness)"]
+                   "CFI evaluation abstract in the theorem (correct oracle); concrete rule family `.cfa: SP N + .ra: .cfa w - ^` in the run"]
     _prof = "debug"
 
     def canon_model(self, case, ans):
@@ -490,11 +493,11 @@ class C04(PropBase):
             base = 0x80000000 if bits == 32 else 0x00007ffd00000000
             # 0, 2: CFI module 0 / 1; 1: scan; 3: frame pointer.  Frame-pointer frames (x86, amd64, arm64) where the theorem's
             # precondition allows them: while the frame pointer is still valid (a scan loses it); amd64: no scan frame after a
-            # frame-pointer frame and not as the outermost frame (its sanity checks want readable addresses); arm64: before
-            # any CFI frame (the unwinder does not carry "x29" through a CFI frame behind a frame-pointer frame)
+            # frame-pointer frame and not as the outermost frame (its sanity checks want readable addresses).  arm64 mixes
+            # frame-pointer and CFI frames like x86 since the repair of F-C04a (x29 is carried through CFI frames)
             techs = [rng.choice([0, 1, 2]) for _ in range(depth + 1)]
             if arch in (0, 1, 3, 6) and depth >= 2 and rng.chance(1, 2):
-                if arch == 0:
+                if arch in (0, 3, 6):
                     nfp = rng.range(1, depth)
                     for i in range(nfp):
                         techs[i] = rng.choice([0, 2, 3, 3])
@@ -502,10 +505,6 @@ class C04(PropBase):
                     for i in range(depth):
                         techs[i] = rng.choice([0, 2, 3, 3])
                     techs[depth - 1] = rng.choice([0, 2])
-                else:
-                    nfp = rng.range(1, depth)
-                    for i in range(nfp):
-                        techs[i] = 3
             modof = lambda t: m1 if t in (1, 3) else cm[t // 2]
             ip0 = modof(techs[0]) + 0x50
             lookalike = lambda: rng.choice([m1 + 0x300 + 4 * rng.below(64), cm[0] + 0x300 + 4 * rng.below(64), cm[1] + 0x300, 0, base + 8 * rng.below(64)])
